@@ -66,6 +66,13 @@ func (c wkClass) pod(i int) world.PodSpec {
 		return world.PodSpec{Name: fmt.Sprintf("d-r1-%c", 'x'+rune(i)), NS: "ns", OwnerKind: "ReplicaSet", OwnerName: "d-r1", Policy: c.Policy, Pool: "pl"}
 	case "bare":
 		return world.PodSpec{Name: fmt.Sprintf("b-%d", i), NS: "ns", Policy: c.Policy}
+	case "ststwin":
+		// two statefulsets with the same name in two namespaces: pod 0 is ns/a-1, pod 1 is ns2/a-1
+		ns := "ns"
+		if i%2 == 1 {
+			ns = "ns2"
+		}
+		return world.PodSpec{Name: "a-1", NS: ns, OwnerKind: "StatefulSet", OwnerName: "a", Policy: c.Policy}
 	case "stsmulti":
 		// statefulset pods requesting two IPs each (two single-address ranges of one pool of the two-pool topology)
 		r := `[["10.10.1.1"],["10.10.1.2"]]`
@@ -79,6 +86,10 @@ func (c wkClass) pod(i int) world.PodSpec {
 
 func (c wkClass) setWorkload(w *world.World, replicas int) {
 	switch c.Kind {
+	case "ststwin":
+		// scale / delete-app act on ns/a; its namesake ns2/a keeps two replicas
+		w.SetStatefulSet("ns", "a", replicas)
+		w.SetStatefulSet("ns2", "a", 2)
 	case "sts", "stsmulti":
 		w.SetStatefulSet("ns", "a", replicas)
 	case "dp", "dppool":
